@@ -250,6 +250,7 @@ bool GetFloatEnvironmentVariable(const char *env_var_name, float &value)
 
   const char *end  = raw_value.c_str() + raw_value.length();
   char *actual_end = nullptr;
+  errno            = 0;  // a stale ERANGE left by earlier code must not reject a valid value
   value            = std::strtof(raw_value.c_str(), &actual_end);
 
   if (errno == ERANGE)
